@@ -14,8 +14,10 @@ def run(ctx):
     args = ["transport", "-seed", str(ctx.seed), "-out", runs, "-random", "40" if thorough else "6"]
     if thorough:
         args += ["-big", "-pause", "1500"]
-    r = C.run_harness(ctx, args, timeout=3000)
-    nruns = json.loads(r.stdout.strip().splitlines()[-1])["runs"]
+    summary = C.run_harness_phase(ctx, args, "process-died:transport", "reading framed messages from a segmented stream", timeout=3000)
+    if summary is None:
+        raise C.Broken("the transport harness died inside the library (reported above); no runs to judge")
+    nruns = summary["runs"]
     out = os.path.join(ctx.wd, "transport_verdicts.ndjson")
     tv = C.run_tlc(ctx, "TransportObs", "TransportObs.cfg", workers=1, env={"VERIF_RUNS": runs, "VERIF_OUT": out},
                    timeout=1800, tag="trace-validation")
